@@ -32,6 +32,8 @@ pub struct Sess {
     pub interposed: bool,
     pending_trace: Vec<String>,
     planted: usize,
+    /// slice c11p: further processes working on the same directory
+    lk_procs: Vec<Option<(Child, ChildStdin, BufReader<ChildStdout>)>>,
 }
 
 fn so_path() -> PathBuf {
@@ -74,6 +76,7 @@ impl Sess {
             interposed: so_path().exists(),
             pending_trace: Vec::new(),
             planted: 0,
+            lk_procs: Vec::new(),
         }
     }
 
@@ -126,6 +129,33 @@ impl Sess {
         }
     }
 
+    fn lk_kill_all(&mut self) {
+        for p in self.lk_procs.iter_mut() {
+            if let Some((mut c, i, o)) = p.take() { drop(i); drop(o); let _ = c.kill(); let _ = c.wait(); }
+        }
+        self.lk_procs.clear();
+    }
+
+    /// one request to process `p` of the lock-protocol slice (spawned on first use)
+    fn lk_ask(&mut self, p: usize, line: &str) -> Option<String> {
+        while self.lk_procs.len() <= p { self.lk_procs.push(None); }
+        if self.lk_procs[p].is_none() {
+            let exe = std::env::current_exe().expect("exe");
+            let mut child = Command::new(exe).arg("worker").stdin(Stdio::piped()).stdout(Stdio::piped()).stderr(Stdio::null()).spawn().expect("spawn lk worker");
+            let stdin = child.stdin.take().unwrap();
+            let stdout = BufReader::new(child.stdout.take().unwrap());
+            self.lk_procs[p] = Some((child, stdin, stdout));
+            let d = format!("dir {}", self.dir.display());
+            let c = self.cfgline.clone();
+            self.lk_ask(p, &d)?;
+            self.lk_ask(p, &c)?;
+        }
+        let (_, stdin, stdout) = self.lk_procs[p].as_mut().unwrap();
+        if writeln!(stdin, "{line}").is_err() || stdin.flush().is_err() { return None; }
+        let mut r = String::new();
+        match stdout.read_line(&mut r) { Ok(0) | Err(_) => None, Ok(_) => Some(r.trim_end_matches('\n').to_string()) }
+    }
+
     fn reap(&mut self) {
         if let Some(mut w) = self.worker.take() {
             let _ = w.child.wait();
@@ -150,6 +180,7 @@ impl Sess {
         self.track.clear();
         self.ploss = None;
         self.pending_trace.clear();
+        self.lk_kill_all();
         self.out.mark(&format!("case {}", self.case_no));
         if self.worker.is_some() {
             let d = format!("dir {}", self.dir.display());
@@ -210,6 +241,7 @@ impl Sess {
     }
 
     pub fn finish(&mut self) {
+        self.lk_kill_all();
         if let Some(mut w) = self.worker.take() {
             drop(w.stdin);
             let _ = w.child.wait();
@@ -524,6 +556,33 @@ impl Sess {
                 "ok".to_string()
             }
             ["dump"] => self.dump(),
+            // --- slice c11p: several processes, several calls of `open` each
+            ["lk", "reset"] => { self.lk_kill_all(); "ok".to_string() }
+            ["lk", "open", slot, p, mode] => {
+                let before = self.dump();
+                let r = self.lk_ask(p.parse().unwrap(), &format!("lk open {slot} {mode}")).unwrap_or_else(|| "died".into());
+                if r == "refused" && self.dump() != before {
+                    self.out.oracle_fail(format!("C11: a refused open changed the directory: `{line}`"));
+                }
+                r
+            }
+            ["lk", "clone", slot, p] => self.lk_ask(p.parse().unwrap(), &format!("lk clone {slot}")).unwrap_or_else(|| "died".into()),
+            ["lk", "drop", slot, p, kind] => self.lk_ask(p.parse().unwrap(), &format!("lk drop {slot} {kind}")).unwrap_or_else(|| "died".into()),
+            ["lk", "die", p] => {
+                let p: usize = p.parse().unwrap();
+                if let Some(Some((mut c, i, o))) = self.lk_procs.get_mut(p).map(|x| x.take()) { let _ = c.kill(); let _ = c.wait(); drop(i); drop(o); }
+                "ok".to_string()
+            }
+            ["lk", "live"] => {
+                let mut all: Vec<String> = Vec::new();
+                for p in 0..self.lk_procs.len() {
+                    if self.lk_procs[p].is_some() {
+                        if let Some(r) = self.lk_ask(p, "lk live") { all.extend(r.split(',').filter(|x| !x.is_empty()).map(String::from)); }
+                    }
+                }
+                all.sort();
+                if all.is_empty() { "-".to_string() } else { all.join(",") }
+            }
             ["conc", _policy, progs @ ..] => {
                 if self.worker.is_none() { self.spawn(); }
                 let r = self.raw(line).unwrap_or_else(|| "sched= crashed".into());
